@@ -241,15 +241,15 @@ func (g *specGen) bodySpec(depth int, nlabels int, noDyn bool) *SpecM {
 				s.Required = rapid.IntRange(0, 3).Draw(t, "required") == 0
 				return s
 			case SBlockMap, SBlockObject:
-				nl := rapid.IntRange(1, 2).Draw(t, "nmaplabels")
+				nl := rapid.SampledFrom([]int{1, 1, 1, 2, 2, 3}).Draw(t, "nmaplabels")
 				for i := 0; i < nl; i++ {
 					s.LabelNames = append(s.LabelNames, fmt.Sprintf("key%d", i))
 				}
-				extra := rapid.IntRange(0, 1).Draw(t, "extralabels")
+				extra := rapid.SampledFrom([]int{0, 0, 0, 1, 1, 2}).Draw(t, "extralabels")
 				s.Nested = g.bodySpec(depth-1, extra, noDyn || bk == SBlockMap)
 				return s
 			default:
-				nl := rapid.IntRange(0, 2).Draw(t, "nblocklabels")
+				nl := rapid.SampledFrom([]int{0, 0, 0, 1, 1, 1, 2, 2, 3, 4}).Draw(t, "nblocklabels")
 				s.Nested = g.bodySpec(depth-1, nl, noDyn)
 				s.Required = rapid.IntRange(0, 3).Draw(t, "required") == 0
 				if bk != SBlock {
@@ -403,16 +403,24 @@ func BodyFromSpec(t *rapid.T, s *SpecM, o BodyFromSpecOpts) *ast.Body {
 			default:
 				n = rapid.IntRange(0, 3).Draw(t, "nblocks")
 			}
+			var prevLabels []ast.Label
 			for i := 0; i < n; i++ {
 				bl := ast.Block{Type: x.Name}
 				nl := x.BlockLabelCount()
 				if perturb("label_count") {
 					nl = rapid.IntRange(0, 3).Draw(t, "nl")
 				}
+				// sibling blocks often share a label prefix (JSON nests them under one property)
+				share := nl > 1 && len(prevLabels) >= nl-1 && rapid.Bool().Draw(t, "share_label_prefix")
 				for j := 0; j < nl; j++ {
+					if share && j < nl-1 {
+						bl.Labels = append(bl.Labels, prevLabels[j])
+						continue
+					}
 					txt := cty.StringVal(rapid.SampledFrom(o.Labels).Draw(t, "label")).AsString()
 					bl.Labels = append(bl.Labels, ast.Label{Text: txt, Bare: isIdent(txt) && rapid.Bool().Draw(t, "bare")})
 				}
+				prevLabels = bl.Labels
 				if x.Kind == SBlockAttrs {
 					bl.Body = &ast.Body{}
 					na := rapid.IntRange(0, 3).Draw(t, "nattrs")
